@@ -35,6 +35,44 @@ claim("C14", "model-based property testing of store queries on a live BaseApp wi
   "tendermint merkle proof runtime trusted as verifier; two known findings rooted in tendermint/iavl v0.12.4 getRangeProof (absence-proof leaves, all-0xFF key) are excluded by predicates computed from the committed key set and reported as KNOWN-FINDING",
   "DESIGN.md §4 C14")
 
+CH = "state is read from the root multistore's working state and decoded independently of the keepers; Tendermint is mirrored by the harness (validator-set delay, tx index stub); listed known findings are excluded by construction and reported as KNOWN-FINDING"
+claim("C01", "differential testing of twin application instances over generated ABCI histories (rapid, restart and pruning differentials, extra read-only traffic on one twin)", "exploration",
+  "Two independently built instances receive the same generated consensus requests (genesis with map-typed sections, votes, evidence, valid/invalid transactions, awards, burns, monotone times); one is restarted from its database at generated points, the other uses a different pruning configuration and gets extra CheckTx/Simulate/Query traffic; every consensus-relevant response and the app hash at every height must be identical.",
+  "map-order / goroutine-timing nondeterminism is sampled per case, not enumerated; logs and gas not compared; " + CH, "DESIGN.md §4 C01")
+claim("C02", "history invariant checking with a supply ledger over generated ABCI histories (rapid)", "exploration",
+  "After every ABCI call of a generated history the recorded supply must equal the sum of all balances, no balance may be negative, and the supply delta of the call must match the statement (only award mints, slash/forced-unstake burns in BeginBlock and DAO burns move it).",
+  CH, "DESIGN.md §4 C02")
+claim("C03", "decision-table oracle over generated and mutated signed transactions observed through CheckTx/DeliverTx (rapid)", "exploration",
+  "Transactions of every message and key type (key in signature or in state), signed by the right or a foreign key, with one post-signing mutation, fee/balance edge cases and replays are submitted; accept/reject is compared with a model written from the statement, rejected ones must leave the state byte-identical, accepted ones must move exactly the fee into the collector.",
+  "signature primitives and sign-bytes construction are trusted here (C19/C20); same-block replays are outside the app's knowledge; " + CH, "DESIGN.md §4 C03")
+claim("C04", "history invariant checking of pool backing over generated staking histories (rapid)", "exploration",
+  "After every ABCI call the staked-pool balance must equal the stake recorded for staked/unstaking validators plus direct sends to the pool; accepted stakes and matured unstakes must move exactly the recorded amounts.",
+  CH, "DESIGN.md §4 C04")
+claim("C05", "model-based testing of the validator-update stream against a Tendermint mirror and the real tendermint ValidatorSet (rapid)", "exploration",
+  "Every InitChain/EndBlock batch of a generated history is applied to a mirror and to tendermint's UpdateWithChangeSet (must be applicable), after which the mirror must equal the MaxValidators highest-powered staked, unjailed validators with power floor(stake/10^6), ties by address.",
+  "a batch that empties the set ends the comparison for that history; " + CH, "DESIGN.md §4 C05")
+claim("C06", "model-based state-machine checking of validator lifecycle edges and secondary indexes over generated histories (rapid)", "exploration",
+  "Validator records before/after every call must follow the legal edges with their stated cause; the raw power index and unstaking queue are compared with the primary records; releases must happen at the first block at/after begin+UnstakingTime with the whole stake; non-unstaked validators keep the minimum stake.",
+  "StakeMinimum is not changed in these histories; " + CH, "DESIGN.md §4 C06")
+claim("C07", "reference arithmetic model (math/big) of slashing applied to generated BeginBlocks (rapid)", "exploration",
+  "Queued burns, downtime slashes and double-sign evidence of generated blocks are replayed on an exact sequential model of the statement; per-validator stake, status, tombstone, pool, supply and bystander balances must match, and BeginBlock must complete.",
+  "which validators cross the downtime threshold is taken from the block's slash events (C08 decides when); two test-pinned evidence panics are known findings; " + CH, "DESIGN.md §4 C07")
+claim("C08", "ring-buffer reference model of the downtime window over generated vote sequences (rapid)", "exploration",
+  "For generated vote patterns of length up to 4 windows the stored counter, offset and missed-bit array of every validator must equal a ring-buffer model after every block, and the slash+jail must occur at exactly the first block the statement names and reset the window.",
+  "window parameters unchanged within a history; " + CH, "DESIGN.md §4 C08")
+claim("C09", "admissibility model of jailing/unjailing over generated histories with a Tendermint mirror (rapid)", "exploration",
+  "Jailed or convicted validators must be absent from the mirrored Tendermint set after every EndBlock; an ante-accepted unjail must be accepted iff the statement's conditions hold; accepted unjails regain exactly floor(stake/10^6); convictions tombstone and jail until year 9999.",
+  "applicability of the update batches is C05's subject; " + CH, "DESIGN.md §4 C09")
+claim("C10", "per-block accounting model of fee distribution and award minting over generated histories (rapid)", "exploration",
+  "At every BeginBlock every account's balance delta is compared with the model: collector emptied, previous proposer (or pos module) credited once with the full fees, each award address credited the sum of its queued awards, supply delta, emptied queue, recorded proposer.",
+  CH, "DESIGN.md §4 C10")
+claim("C11", "byte-for-byte state-dump equality around rejected transactions and read-only calls over generated and mutated inputs (rapid; native fuzz target in the thorough tier)", "exploration",
+  "Random bytes, mutated valid transactions and well-formed transactions engineered to fail are delivered at any position; a non-zero code must leave all stores byte-identical except the fee of ante-accepted ones; CheckTx/Simulate/Query must leave them identical; no panic may escape DeliverTx/CheckTx/Simulate.",
+  "the transient params store is outside the dump; a panicking plain query is only required not to change state; " + CH, "DESIGN.md §4 C11")
+claim("C17", "access-control model of governance messages over generated histories with ownership hand-overs (rapid)", "exploration",
+  "Parameter changes, upgrades and DAO transfers/burns by owners, owners of other keys and strangers with well-formed/malformed values: non-owner => rejected and only the fee changes; owner + well-formed => exactly that raw parameter entry changes to the canonical encoding; DAO => exact account and supply deltas.",
+  "unknown subspaces with ACL entries and reachable upgrade heights end in a deliberate os.Exit and are not generated; " + CH, "DESIGN.md §4 C17")
+
 NOT_YET = "check not built yet in this revision (work in progress, see DESIGN.md Appendix C)"
 m = dict(version=1,
   setup_cmd="./verif.sh build",
